@@ -562,6 +562,12 @@ class System:
         # if component/rail name changes, check that it is unique
         if name != comp._params["name"]:
             self._chk_name(comp._params["name"], rail)
+        elif rail != "" and rail != self._g.attrs["rails"][name]:
+            if (
+                rail in self._g.attrs["nodes"].keys()
+                or rail in self._g.attrs["rails"].values()
+            ):
+                raise ValueError('Rail name "{}" is already used!'.format(rail))
 
         eidx = self._get_index(name)
         # source can only be changed to source
@@ -573,6 +579,19 @@ class System:
         if self._g[eidx]._component_type == _ComponentTypes.PMUX:
             if not isinstance(comp, PMux):
                 raise ValueError("PMux cannot be changed to other type!")
+        elif isinstance(comp, PMux) and self._get_pmux() != -1:
+            raise ValueError("a system can only have one PMux")
+
+        # check that new component allows the existing childs
+        childs = self._get_childs()
+        if childs[eidx] != -1:
+            for c in childs[eidx]:
+                if not self._g[c]._component_type in comp._child_types:
+                    raise ValueError(
+                        "Component of type {} does not allow the existing childs!".format(
+                            comp._component_type.name
+                        )
+                    )
 
         # check that parent allows component type as child
         parents = self._get_parents()
